@@ -27,6 +27,36 @@ fn inputs(tier: &str) -> Vec<Input> {
     for n in ["s0", "w0", "kitchen_xsd", "kitchen_wsdl"] {
         v.push(Input { label: format!("seed:{n}"), case: crate::seeds::by_name(n).to_case() });
     }
+    // an unreferenced sibling next to a connected pair (the CLI helper registers it anyway)
+    {
+        let mut c = crate::seeds::s0().to_case();
+        let mut extra = crate::seeds::s1();
+        extra.files[0].name = "unused.xsd".into();
+        extra.files[0].tns = "http://zv.example/unused".into();
+        extra.files[0].prefixes = vec![("a".into(), "http://zv.example/unused".into())];
+        for comp in extra.files[0].comps.iter_mut() {
+            let n = format!("Unused{}", comp.name());
+            comp.set_name(&n);
+        }
+        c.files.push(("unused.xsd".into(), crate::schema::print_xsd(&extra.files[0])));
+        c.files.push(("zz-unused2.xsd".into(), crate::schema::print_xsd(&extra.files[0]).replace("Unused", "Unused2")));
+        v.push(Input { label: "gen:unreferenced-siblings".into(), case: c });
+    }
+    // several namespaces whose abbreviations collide, declared on one element
+    {
+        let mut s = crate::seeds::s0();
+        let nss = ["http://zv.example/v1/types", "http://zv.example/v2/types", "http://zv.example/v3/types"];
+        s.files[0].prefixes = vec![("t1".into(), nss[0].into()), ("t2".into(), nss[1].into()), ("t3".into(), nss[2].into())];
+        s.files[0].tns = nss[0].into();
+        s.files[0].imports = vec![crate::schema::Import { ns: nss[1].into(), loc: Some("b.xsd".into()) }];
+        s.files[1].tns = nss[1].into();
+        s.files[1].prefixes = vec![("t2".into(), nss[1].into()), ("t3".into(), nss[2].into())];
+        crate::seeds::holder_mut(&mut s).seq = Some(crate::schema::Seq::of(vec![
+            crate::seeds::el("Own", crate::schema::TypeRef::n(nss[0], "Leaf")),
+            crate::seeds::el("Other", crate::schema::TypeRef::n(nss[1], "LeafB")),
+        ]));
+        v.push(Input { label: "gen:colliding-abbreviations".into(), case: s.to_case() });
+    }
     // generated WSDLs with k operations and 2..3 parts per message
     for k in 2..=4usize {
         let mut s = crate::seeds::w0();
